@@ -243,6 +243,65 @@ func runC19(o *out, thorough bool, r *rng, _ []string) map[string]interface{} {
 		}
 	}
 	o.count("type-words-through-entry-points")
+	// the Type FIELD edited by the caller, so that it disagrees with the first two bytes of Raw: every writer
+	// (SetType, WriteType, WriteHeader, Encode) writes the field's value, every reader (Decode, Write, CloneTo,
+	// ReadFrom, UnmarshalBinary - also of the bytes the Message already holds) reads the bytes
+	for i := 0; i < 16384; i += 1 + i%2 {
+		w1, w2 := (i*7919+13)&0x3fff, i
+		if w1 == w2 {
+			continue
+		}
+		var t1, t2 stun.MessageType
+		t1.ReadValue(uint16(w1))
+		t2.ReadValue(uint16(w2))
+		hd := header(w1, 0, tid0)
+		withAttr := append(header(w1, 8, tid0), 0x80, 0x22, 0, 3, 'a', 'b', 'c', 0)
+		for wi, writer := range []func(mm *stun.Message){
+			func(mm *stun.Message) { mm.SetType(mm.Type) },
+			func(mm *stun.Message) { mm.WriteType() },
+			func(mm *stun.Message) { mm.WriteHeader() },
+			func(mm *stun.Message) { mm.Encode() },
+		} {
+			for bi, data := range [][]byte{hd, withAttr} {
+				mm := new(stun.Message)
+				if stun.Decode(data, mm) != nil {
+					continue
+				}
+				mm.Type = t2
+				writer(mm)
+				if got := int(mm.Raw[0])<<8 | int(mm.Raw[1]); got != w2 {
+					o.fail("writer-leaves-another-type", fmt.Sprintf("1901 %d,%d (Message decoded with type word %#x, Type field set to this, writer %d on message %d: Raw holds %#x, Value is %#x)", t2.Method, t2.Class, w1, wi, bi, got, w2))
+					i = 16384
+				}
+			}
+		}
+		for ri, reader := range []func(mm, dst *stun.Message, data []byte) error{
+			func(mm, dst *stun.Message, data []byte) error { return mm.Decode() },
+			func(mm, dst *stun.Message, data []byte) error { _, e := mm.Write(data); return e },
+			func(mm, dst *stun.Message, data []byte) error { _, e := mm.Write(mm.Raw); return e },
+			func(mm, dst *stun.Message, data []byte) error { return mm.CloneTo(dst) },
+			func(mm, dst *stun.Message, data []byte) error { _, e := mm.ReadFrom(bytes.NewReader(data)); return e },
+			func(mm, dst *stun.Message, data []byte) error { return mm.UnmarshalBinary(data) },
+		} {
+			for bi, data := range [][]byte{hd, withAttr} {
+				mm, dst := new(stun.Message), new(stun.Message)
+				if stun.Decode(data, mm) != nil {
+					continue
+				}
+				mm.Type = t2
+				err := reader(mm, dst, data)
+				res := mm
+				if ri == 3 {
+					res = dst
+				}
+				if err != nil || res.Type != t1 || int(res.Raw[0])<<8|int(res.Raw[1]) != w1 {
+					o.fail("entry-point-reads-another-type", fmt.Sprintf("1902 %d (the Type field had been set to %v before; reader %d on message %d: %v, error %v; ReadValue says %v)", w1, t2, ri, bi, res.Type, err, t1))
+					i = 16384
+				}
+			}
+		}
+	}
+	o.count("type-field-edited-by-the-caller")
 	// a receiver that is reused (as Decode does with m.Type): ReadValue overwrites it completely
 	var reused stun.MessageType
 	m := new(stun.Message)
